@@ -549,13 +549,14 @@ class ApiDriver:
 
 class LinkTracker:
     """Symbolic links that exist under the root, by identity.  A link is
-    *new* the first time its (inode, mtime, target) is seen; *relocated*
+    *new* the first time its (inode, target) is seen; *relocated*
     when it is later found in a directory it was not created in (renamed,
     hard-linked, or an ancestor directory renamed)"""
 
     def __init__(self, box: fsbox.Box):
         self.box = box
         self.created: Dict[Any, bytes] = {}
+        self.present: set = set()
         self.outward = False
 
     def scan(self) -> Tuple[List[Tuple[bytes, Any]], bool]:
@@ -565,6 +566,7 @@ class LinkTracker:
         new = []
         relocated = False
         self.outward = False
+        present = set()
         todo = [self.box.permitted]
 
         while todo:
@@ -587,9 +589,12 @@ class LinkTracker:
                 if pystat.S_ISDIR(st_.st_mode):
                     todo.append(p)
                 elif pystat.S_ISLNK(st_.st_mode):
-                    key = (st_.st_ino, st_.st_mtime_ns, os.readlink(p))
+                    key = (st_.st_ino, os.readlink(p))
+                    present.add(key)
 
-                    if key not in self.created:
+                    if key not in self.created or key not in self.present:
+                        # never seen, or gone at the last scan (inode
+                        # number reused by a later link)
                         self.created[key] = d
                         new.append((p, key))
                     elif self.created[key] != d:
@@ -599,6 +604,7 @@ class LinkTracker:
                                         fsbox.resolve(p, True).path):
                         self.outward = True
 
+        self.present = present
         return new, relocated
 
 
@@ -678,6 +684,8 @@ class ServedOracle:
         self.escapes: List[Violation] = []
         self.probes: List[Violation] = []
         self.tracker = LinkTracker(box)
+        self.root_ino = os.lstat(box.permitted).st_ino
+        self.root_replaced = False
 
     def step(self, paths=(), linkpath: Optional[bytes] = None) -> bool:
         """Evaluate what happened since the last call (while serving a
@@ -701,6 +709,12 @@ class ServedOracle:
         self.mark = len(box.log)
 
         with Quiet(box):
+            try:
+                if os.lstat(box.permitted).st_ino != self.root_ino:
+                    self.root_replaced = True
+            except OSError:
+                self.root_replaced = True
+
             new, relocated = self.tracker.scan()
 
             if new:
@@ -735,13 +749,10 @@ class ServedOracle:
         if self.escapes:
             raise self.escapes[0]
 
-        with Quiet(box):
-            gone = not os.path.isdir(box.permitted)
-
-        if gone:
+        if self.root_replaced:
             raise Violation('outside-modified', 'the root directory itself '
                             'was removed from its parent directory',
-                            self.tag + ':root-removed')
+                            'chroot:root-removed')
 
         diff = fsbox.snapshot_diff(before, after)
 
@@ -1314,12 +1325,19 @@ def make_hostile_server(tree, outside: bytes):
             if not cands:
                 raise asyncssh.SFTPNoSuchFile('not a directory')
 
+            # every generated directory is listed once: colliding path
+            # strings (names such as '/' or 'x/..') must not turn the
+            # finite tree into an endless one
             node = next((n for n in cands if id(n) not in self.scanned),
-                        cands[0])
-            self.scanned.add(id(node))
+                        None)
 
             for name in (b'.', b'..'):
                 yield asyncssh.SFTPName(name, attrs=attrs_of('d'))
+
+            if node is None:
+                return
+
+            self.scanned.add(id(node))
 
             for kid in node.get('kids', []):
                 name = subst(kid['n'])
@@ -1662,7 +1680,7 @@ def scp_sink_strategy(tier: str):
 
 FAMILIES = [
     Family('chroot', run_chroot, strategy=chroot_strategy,
-           budget={'quick': 1200, 'thorough': 24000},
+           budget={'quick': 1200, 'thorough': 20000},
            required={'all': ['op:' + k for k in OP_KINDS] +
                      ['path:dotdot', 'path:abs', 'path:empty-comp',
                       'path:nonutf8', 'path:long', 'path:sentinel',
@@ -1670,12 +1688,12 @@ FAMILIES = [
                       'ok:rename', 'ok:symlink', 'ok:mkdir', 'ok:open',
                       'v3', 'v4', 'v5', 'v6', 'raw', 'api']}),
     Family('scp-chroot', run_scp_chroot, strategy=scp_chroot_strategy,
-           budget={'quick': 320, 'thorough': 6000},
+           budget={'quick': 320, 'thorough': 5000},
            required={'all': ['upload', 'download', 'accepted', 'refused',
                              'served', 'name:dotdot', 'name:abs',
                              'path:dotdot', 'rec:C', 'rec:D', 'rec:E']}),
     Family('sftp-get', run_sftp_get, strategy=sftp_get_strategy,
-           budget={'quick': 700, 'thorough': 12000},
+           budget={'quick': 700, 'thorough': 10000},
            required={'all': ['get', 'mget', 'name:dotdot', 'name:abs',
                              'name:empty-comp', 'name:abs-into-box',
                              'dup-name', 'symlink-then-dir',
@@ -1683,7 +1701,7 @@ FAMILIES = [
                              'follow', 'wrote-something', 'completed',
                              'v3', 'v4', 'v5', 'v6']}),
     Family('scp-sink', run_scp_sink, strategy=scp_sink_strategy,
-           budget={'quick': 600, 'thorough': 12000},
+           budget={'quick': 600, 'thorough': 10000},
            required={'all': ['rec:C', 'rec:D', 'rec:E', 'rec:T',
                              'name:dotdot', 'name:abs', 'name:empty-comp',
                              'mismatched-E', 'accepted', 'refused',
